@@ -16,7 +16,7 @@ import (
 )
 
 type c05Edit struct {
-	Kind string `json:"k"` // none, flip, drop, dup, swap, trunc, inject
+	Kind string `json:"k"` // none, flip, drop, dup, swap, trunc, inject, longpad (CBC: record re-sealed with Body extra padding blocks, then flipped if Mask != 0)
 	Rec  int    `json:"r"` // index of the application record (0-based)
 	Off  int    `json:"o"` // flip: byte offset within the record (header included); trunc: bytes of the record that still arrive (0 = boundary)
 	Mask byte   `json:"m"`
@@ -29,6 +29,7 @@ type c05Case struct {
 	Dir    int     `json:"dir"` // 0: client -> server is attacked, 1: server -> client
 	Writes []int   `json:"writes"`
 	Edit   c05Edit `json:"edit"`
+	RecvCW bool    `json:"recvcw"` // the receiver shuts its write side down (CloseWrite) before it reads
 }
 
 type c05Out struct {
@@ -94,6 +95,31 @@ func c05Exec(c c05Case) (out c05Out, sig, msg string) {
 				e.cutAfter = len(e.sentOut) + ed.Off
 				out.applied = true
 			}
+		case "longpad":
+			keys, err := refKeysOfTaps(sim.ends[0].wrote, sim.ends[1].wrote, cc)
+			if err != nil || keys.GCM {
+				return [][]byte{rec}
+			}
+			key, iv, mac := keys.dir(c.Dir == 0)
+			var pts [][]byte
+			for _, ch := range chunks {
+				if len(ch) > 0 {
+					pts = append(pts, ch)
+				}
+			}
+			explicit := rec[5 : 5+16]
+			frag := refSealPad(false, key, iv, mac, refSeq64(uint64(appIdx+1)), 23, [2]byte{1, 1}, explicit, pts[appIdx], ed.Body)
+			nr := append([]byte{23, 1, 1, byte(len(frag) >> 8), byte(len(frag))}, frag...)
+			out.applied = true
+			out.recLens[len(out.recLens)-1] = len(nr)
+			if ed.Mask != 0 {
+				if ed.Off < len(nr) {
+					nr[ed.Off] ^= ed.Mask
+				} else {
+					out.applied = false
+				}
+			}
+			return [][]byte{nr}
 		case "inject":
 			var body []byte
 			switch ed.Body {
@@ -124,6 +150,11 @@ func c05Exec(c c05Case) (out c05Out, sig, msg string) {
 		return nil
 	}
 	recv := func(cn *Conn) error {
+		if c.RecvCW {
+			if err := cn.CloseWrite(); err != nil {
+				return err
+			}
+		}
 		buf := make([]byte, 4096)
 		for {
 			n, err := cn.Read(buf)
@@ -202,6 +233,12 @@ func c05Check(c c05Case) (sig, msg string, classes []string, applied bool) {
 	if out.applied {
 		eofOK = false
 		switch ed.Kind {
+		case "longpad":
+			if ed.Mask == 0 {
+				eofOK = true // a legal record with long padding: everything is delivered
+			} else {
+				prefixRecs = ed.Rec
+			}
 		case "flip", "swap", "inject":
 			prefixRecs = ed.Rec
 		case "drop":
@@ -240,7 +277,7 @@ func c05Check(c c05Case) (sig, msg string, classes []string, applied bool) {
 		return "trunc-inside-record", fmt.Sprintf("stream cut inside a record reported as %v, want io.ErrUnexpectedEOF", out.firstErr), nil, out.applied
 	}
 	cls := []string{"edit:" + ed.Kind}
-	if out.applied && ed.Kind == "flip" {
+	if out.applied && (ed.Kind == "flip" || (ed.Kind == "longpad" && ed.Mask != 0)) && !c.RecvCW {
 		field := "fragment"
 		switch {
 		case ed.Off == 0:
@@ -314,6 +351,39 @@ func TestVF_C05(t *testing.T) {
 						c := base
 						c.Edit = e
 						run(c)
+						// the same edit against a receiver that has already shut down its write side
+						c.RecvCW = true
+						run(c)
+					}
+				}
+				if !vfIsGCM(suite) {
+					// CBC records with long (legal) padding, untouched and with every byte flipped
+					for _, blocks := range []int{3, 14} {
+						for ri := range bo.recLens {
+							probe := base
+							probe.Edit = c05Edit{Kind: "longpad", Rec: ri, Body: blocks}
+							po, _, _ := c05Exec(probe)
+							idx++
+							if vfMine(idx) {
+								run(probe)
+							}
+							if ri >= len(po.recLens) {
+								continue
+							}
+							for off := 0; off < po.recLens[ri]; off++ {
+								if !vfThorough() && (off+ri)%3 != 0 && off < po.recLens[ri]-70 {
+									continue
+								}
+								for _, m := range masks {
+									idx++
+									if vfMine(idx) {
+										c := base
+										c.Edit = c05Edit{Kind: "longpad", Rec: ri, Body: blocks, Off: off, Mask: m}
+										run(c)
+									}
+								}
+							}
+						}
 					}
 				}
 				for ri, rl := range bo.recLens {
@@ -347,7 +417,7 @@ func TestVF_C05(t *testing.T) {
 	// random profiles and edits
 	vfRapid(t, rec, "random", vfN(600, 20000), func(t *rapid.T) {
 		c := c05Case{Suite: rapid.SampledFrom(vfSuites).Draw(t, "suite"), Dir: rapid.IntRange(0, 1).Draw(t, "dir"),
-			Writes: rapid.SliceOfN(rapid.IntRange(1, 700), 1, 5).Draw(t, "writes")}
+			Writes: rapid.SliceOfN(rapid.IntRange(1, 700), 1, 5).Draw(t, "writes"), RecvCW: rapid.IntRange(0, 3).Draw(t, "recvcw") == 0}
 		ri := rapid.IntRange(0, len(c.Writes)-1).Draw(t, "rec")
 		kind := rapid.SampledFrom([]string{"flip", "flip", "flip", "drop", "dup", "swap", "trunc", "inject"}).Draw(t, "kind")
 		c.Edit = c05Edit{Kind: kind, Rec: ri}
